@@ -143,6 +143,9 @@ PROPS["C20"] = {
         {"name": "C20Enum", "pkg": COMP, "test": "TestVerifC20Enum", "kind": "enum",
          "shards": {"quick": 8, "thorough": 16}, "env_tier": {"quick": {"VERIF_C20_MAXLEN": 3}, "thorough": {"VERIF_C20_MAXLEN": 4}}},
         {"name": "C20Names", "pkg": COMP, "test": "TestVerifC20Names", "kind": "enum"},
+        # two or three instances in use at the same time (RPCs in flight), some of them recycled before
+        {"name": "C20Concurrent", "pkg": COMP, "test": "TestVerifC20Concurrent", "kind": "rapid",
+         "checks": {"quick": 2000, "thorough": 30000}, "shards": {"quick": 2, "thorough": 8}},
         # the same name / enum value denotes the same algorithm outside the compression package
         {"name": "C20Wire", "pkg": "internal/tracer", "test": "TestVerifC20Wire", "kind": "rapid",
          "checks": {"quick": 4000, "thorough": 60000}, "shards": {"quick": 2, "thorough": 8}},
